@@ -54,8 +54,10 @@ fn to_bytes(px: &[u32]) -> Vec<u8> {
 /// the empty canvas), top layer carries the mode and both opacities.
 pub fn render(spec: &Spec, mode: u16) -> Result<Vec<u32>, Failure> {
     let mut s = Sprite::empty(spec.w, spec.h, Fmt::Rgba);
-    s.layers.push(Layer { flags: LF_VISIBLE, kind: LayerKind::Image, level: 0, blend: 0, opacity: 255, name: "backdrop".into(), user_data: None });
-    s.layers.push(Layer { flags: LF_VISIBLE, kind: LayerKind::Image, level: 0, blend: mode, opacity: spec.lop, name: "source".into(), user_data: None });
+    // flag bits other than VISIBLE have no documented effect on RGBA compositing; vary them by content hash
+    let fl = |k: u64| -> u16 { [0u16, 0, 2, LF_BACKGROUND, 0x7E, 4 | LF_BACKGROUND, 0x10, 0x40][((spec.back.len() as u64 + spec.lop as u64 * 7 + spec.cop as u64 * 13 + spec.mode as u64 + k * 3) % 8) as usize] };
+    s.layers.push(Layer { flags: LF_VISIBLE | fl(1), kind: LayerKind::Image, level: 0, blend: 0, opacity: 255, name: "backdrop".into(), user_data: None });
+    s.layers.push(Layer { flags: LF_VISIBLE | fl(2), kind: LayerKind::Image, level: 0, blend: mode, opacity: spec.lop, name: "source".into(), user_data: None });
     s.frames[0].cels.push(Cel { layer: 0, x: 0, y: 0, opacity: 255, content: CelContent::Image { w: spec.w, h: spec.h, pixels: to_bytes(&spec.back) }, user_data: None });
     if spec.tilemap_top {
         // same pixels, delivered through the tilemap rendering path: tileset {tile 0 = empty, tile 1 = source}
